@@ -41,6 +41,21 @@ func multisets(maxSize int) [][]string {
 	return out
 }
 
+// followCases: a node that follows a chain (no append-only layer in its store stack) against peers that replay old rounds.
+func followCases() []bnet.SyncCase {
+	var cs []bnet.SyncCase
+	for _, first := range []string{"forgedreplay@0", "forgedreplay@1", "genuinereplay@1", "regress@1", "repeat@1", "badsig@1", "skip@1"} {
+		for _, rest := range [][]string{nil, {"honest"}, {"close@1"}} {
+			for _, h0 := range []uint64{0, 2} {
+				for _, tgt := range []uint64{h0 + 3, 0} {
+					cs = append(cs, bnet.SyncCase{H0: h0, Target: tgt, Peers: append([]string{first}, rest...), Height: 5})
+				}
+			}
+		}
+	}
+	return cs
+}
+
 func cases(maxSize int, quick bool) []bnet.SyncCase {
 	var cs []bnet.SyncCase
 	for _, ms := range multisets(maxSize) {
@@ -116,6 +131,30 @@ func main() {
 		jobs = append(jobs, vlib.E1Job{Name: fmt.Sprintf("c10-sync/%s/%s/peers<=%d/cases=%d", j.scheme, j.be, j.size, len(cs)), Bound: j.bound,
 			Run: func(devs []vrt.Dev) *explore.Exec { return run(sm, devs, false) }, Labeled: func(devs []vrt.Dev) *explore.Exec { return run(sm, devs, true) },
 			Post: sm.Post("c10/sync")})
+	}
+	// c10-follow
+	fschemes := []string{crypto.DefaultSchemeID, crypto.UnchainedSchemeID}
+	fbackends := []string{"bolt-trimmed"}
+	if !c.Quick() {
+		fschemes = append(fschemes, crypto.SigsOnG1ID)
+		fbackends = []string{"bolt-trimmed", "bolt-untrimmed", "memdb"}
+	}
+	for _, scID := range fschemes {
+		for _, be := range fbackends {
+			k := bnet.NewKeys(scID, 3, 2, 3*time.Second, genesis)
+			f := bnet.NewKeys(scID, 3, 2, 3*time.Second, genesis)
+			cs := followCases()
+			total += len(cs)
+			sm := &bnet.SyncSim{Keys: k, Foreign: f, Backend: be, Cases: cs, Periods: 3, Follow: true}
+			bound := 0
+			if !c.Quick() && be == "bolt-trimmed" {
+				bound = 1
+			}
+			jobs = append(jobs, vlib.E1Job{Name: fmt.Sprintf("c10-follow/%s/%s/cases=%d", scID, be, len(cs)), Bound: bound,
+				Run:     func(devs []vrt.Dev) *explore.Exec { return sm.Judge(sm.Run(devs, false), "c10/follow") },
+				Labeled: func(devs []vrt.Dev) *explore.Exec { return sm.Judge(sm.Run(devs, true), "c10/follow") },
+				Post:    sm.Post("c10/follow")})
+		}
 	}
 	c.Count("sync_cases", int64(total))
 	c.E1Batch(jobs, time.Until(c.DeadlineIn(120*time.Second, 30*time.Minute)))
